@@ -176,7 +176,9 @@ def run_description(case: dict, work: Path) -> dict:
                 violations.append({"key": "example-lost", "msg": str(ident)})
                 continue
             loaded = infos[shard.path].custom_metadata
-            if meta and repr(loaded) != repr(meta):
+            # values that compare equal in Python (1 == 1.0 == True) are one metadata value for the filler, which
+            # keeps the first spelling it saw for the shard: equality, not representation, is what is promised
+            if meta and loaded != meta:
                 violations.append({"key": "shard-custom-metadata-changed", "msg": f"wrote {meta!r} loaded {loaded!r}"})
     return {"sig": ["description", fmt, comp, len(algs), common.stable_hash(metadata_kwargs)], "nontrivial": True,
             "violations": violations, "obs": dict(obs),
